@@ -350,35 +350,68 @@ def _intr_native(pkgname, dst_dir, float_helper=True):
 
 
 def _test_file(pkgname, func, args, dst):
+    call = '%s(%s)' % (func, ', '.join(str(a) for a in args))
     txt = '''package %s
 
 import "testing"
 
-func TestVerifReplay(t *testing.T) {
-	vLoadReplay()
+func vReplayOnce(t *testing.T) (aborted bool) {
 	defer func() {
 		if r := recover(); r != nil {
 			if a, ok := r.(vAbort); ok {
 				t.Logf("REPLAY-ABORT %%s", a.why)
+				aborted = true
 				return
 			}
-			t.Fatalf("REPLAY-PANIC %%v", r)
+			vFailures = append(vFailures, "panic")
+			t.Logf("REPLAY-PANIC %%v", r)
 		}
 	}()
-	%s(%s)
+	%s
+	return false
+}
+
+func TestVerifReplay(t *testing.T) {
+	vLoadReplay()
+	aborted := vReplayOnce(t)
 	if len(vFailures) > 0 {
 		t.Fatalf("REPLAY-FAILED %%q", vFailures)
 	}
+	hasFault := false
+	for _, d := range vDraws {
+		if d.Kind == "fault" {
+			hasFault = true
+		}
+	}
+	if !hasFault || aborted {
+		return
+	}
+	// the fault / short-read index counts calls of the abstract file; the real
+	// libraries make a different number of calls (longer thrift headers), so
+	// scan the index natively with the same values
+	for k := int64(1); k <= 20000; k++ {
+		vPos, vFailures, vExhausted = 0, nil, false
+		vFaultOverride, vFaultWasFired = k, false
+		vReplayOnce(t)
+		if len(vFailures) > 0 {
+			t.Fatalf("REPLAY-FAILED at native fault index %%d: %%q", k, vFailures)
+		}
+		if !vFaultWasFired {
+			break
+		}
+	}
 }
-''' % (pkgname, func, ', '.join(str(a) for a in args))
+''' % (pkgname, call)
     open(dst, 'w').write(txt)
 
 
 def _judge(body, rc, out):
-    if 'REPLAY-ABORT' in out or 'replay vector mismatch' in out:
+    if 'replay vector mismatch' in out:
         return False, out
-    if 'REPLAY-VIOLATION' in out or 'REPLAY-PANIC' in out or 'REPLAY-FAILED' in out:
+    if 'REPLAY-FAILED' in out:
         return True, out
+    if 'REPLAY-ABORT' in out and 'REPLAY-FAILED' not in out:
+        return False, out
     if rc != 0 and ('panic:' in out or 'fatal error' in out):
         return True, out
     return False, out
